@@ -8,8 +8,10 @@ const { diff, diffClass, stable } = require('../lib/canon');
 const OPTS = JSON.stringify({ transformOn: true, optimize: false });
 const OPTS2 = JSON.stringify({ transformOn: true, optimize: true, enableObjectSlots: false, mergeProps: false });
 
+const OPTS3 = JSON.stringify({ transformOn: true, optimize: false, pragma: 'hh' });
+
 function requests(c) {
-  const opts = c.o2 ? OPTS2 : OPTS;
+  const opts = c.o3 ? OPTS3 : c.o2 ? OPTS2 : OPTS;
   const reqs = [{ src: H.renderHistory(c.items), want: ['eval'], opts }];
   c.items.forEach((it, i) => reqs.push({ src: H.renderAlone(it, i), want: ['eval'], opts })); // alone, under the index it has in the history
   return reqs;
@@ -54,9 +56,13 @@ module.exports = {
     name: 'O2:optimize-on-objectSlots-off-mergeProps-off',
     bounds: { note: 'focus pairs and core triples again under optimize=true, enableObjectSlots=false, mergeProps=false' },
     *gen() { for (const a of G.FOCUS) for (const b of G.CORE.concat(G.STATE_D)) { if (G.onceOk([a, b])) yield { items: [a, b], o2: true }; if (G.onceOk([b, a])) yield { items: [b, a], o2: true }; } for (const a of G.MINI) for (const b of G.MINI) for (const d of G.MINI) if (G.onceOk([a, b, d])) yield { items: [a, b, d], o2: true }; },
+  }, {
+    name: 'O3:pragma-configured',
+    bounds: { note: 'every item next to every focus item, both orders, with a configured pragma (vnode calls go to a global stub, so a module may need nothing else from the runtime)' },
+    *gen() { for (const a of G.FOCUS) for (const b of G.CORE.concat(G.STATE_D)) { if (G.onceOk([a, b])) yield { items: [a, b], o3: true }; if (G.onceOk([b, a])) yield { items: [b, a], o3: true }; } },
   }]).concat(tier === 'thorough' ? [G.canonicalSpace(prepared, (items) => ({ items }))] : []),
   requests, judge,
-  *shrink(c) { for (const items of G.shrinkItems(c.items)) if (items.length) yield { items, o2: c.o2 }; if (c.o2) yield { items: c.items }; },
-  caseKey: (c) => G.key(c.items) + (c.o2 ? ' {optimize eos=off mergeProps=off}' : ''),
+  *shrink(c) { for (const items of G.shrinkItems(c.items)) if (items.length) yield { items, o2: c.o2, o3: c.o3 }; if (c.o2 || c.o3) yield { items: c.items }; },
+  caseKey: (c) => G.key(c.items) + (c.o2 ? ' {optimize eos=off mergeProps=off}' : '') + (c.o3 ? ' {pragma}' : ''),
   depth: (c) => c.items.length,
 };
